@@ -975,6 +975,19 @@ class Exec:
                 res.extend(self.for_list(s, st1, itv))
             elif itv.kind == 'tuple':
                 res.extend(self.for_tuple(s, st1, itv))
+            elif itv.kind == 'ref':
+                # container of a class known only logically: sequence-like or set-like
+                a = st1.copy()
+                a.assume(z3.Or(L.isa['list'](itv.t), L.isa['tuple'](itv.t)))
+                a.trace.append('L%d:iter-as-sequence' % s.lineno)
+                res.extend(self.for_list(s, a, V('list', itv.t)))
+                b = st1.copy()
+                b.assume(L.isa['set'](itv.t))
+                b.trace.append('L%d:iter-as-set' % s.lineno)
+                res.extend(self.for_set(s, b, V('set', itv.t)))
+                rest = st1
+                rest.assume(z3.Not(z3.Or(L.isa['list'](itv.t), L.isa['tuple'](itv.t), L.isa['set'](itv.t))))
+                self.oblige(rest, 'iterable-is-a-list-tuple-or-set', z3.BoolVal(False), 'call-pre', lineno=s.lineno)
             else:
                 raise Unsupported('for over value of kind %s (line %d)' % (itv.kind, s.lineno))
         return res
